@@ -11,7 +11,7 @@ Prints one line per property: `<pid> rc=<n> <VIOLATION line or ->`.
 (For the record in seeded/<id>/meta.json; final confirmation on /repo itself is done separately.)
 """
 import os, subprocess, sys, shutil, json
-MV = '/tmp/muteval'
+MV = os.environ.get('MUTEVAL_DIR', '/tmp/muteval')
 V = os.path.dirname(os.path.dirname(os.path.abspath(__file__)))
 
 
@@ -57,7 +57,7 @@ def main():
                 rp = vl[0].split('replay=')[1].split()[0]
                 try:
                     j = json.load(open(rp))
-                    print('   replay:', (j.get('line') or j.get('what')), '| impl', j.get('impl'), '| model', j.get('model'), '| spec', j.get('spec'))
+                    print("   replay:", str(j.get("line") or j.get("what"))[:200], "| impl", str(j.get("impl"))[:120], "| model", str(j.get("model"))[:120], "| spec", str(j.get("spec"))[:120])
                 except Exception:
                     pass
     finally:
